@@ -313,7 +313,14 @@ void muggle_evloop_exit(muggle_event_loop_t *evloop)
 	}
 	else
 	{
+		// NOTE:
+		//   evloop->tid holds the creating thread until muggle_evloop_run
+		//   records the running thread, so this branch is also taken by an
+		//   exit request issued before (or just before) run() starts; the
+		//   loop only tests to_exit after its poll call returns, hence wake
+		//   it up here as well or it sleeps forever
 		evloop->to_exit = MUGGLE_EV_LOOP_EXIT_STATUS_EXIT;
+		muggle_evloop_wakeup(evloop);
 	}
 }
 
